@@ -15,7 +15,7 @@
    [names_distinct] (known finding D7: a token and a literal with the same text are one terminal) — and
    verdict, diagnostics (kind, symbol) and definition list equal those of spec.Parse / Spec.DFA. *)
 From Coq Require Import String List Bool NArith Permutation.
-From Verif Require Import Cfg.Ebnf Cfg.Translate Emerge.SpecModel Emerge.SpecWf Emerge.SpecTable Emerge.Pipeline.
+From Verif Require Import Cfg.Ebnf Cfg.Translate Emerge.SpecModel Emerge.SpecWf Emerge.SpecTable Emerge.SpecRules Emerge.Pipeline.
 From VerifGen Require Import RuneGo.
 Import ListNotations.
 
@@ -107,6 +107,44 @@ Theorem unknown_predefined_name_is_reported_iff_written :
   forall ds v, In (InvalidPredef v) (spec_diags ds) <-> In v (unknown_predefs predefs_s ds).
 Proof. intros ds v. exact (unknown_predef_reported_iff terminal_names predefs_s ds v). Qed.
 Print Assumptions unknown_predefined_name_is_reported_iff_written.
+
+(* "no start rule": reported iff no rule is written for [start] (rules written as rule handles count, as in the
+   implementation) - every declaration list, no premise *)
+Theorem no_start_rule_is_reported_iff_none_is_written :
+  forall ds, In NoStartRule (spec_diags ds) <-> ~ In "start"%string (rules_heads ds).
+Proof.
+  intros ds. unfold spec_diags, translate_spec. rewrite no_start_rule_reported_iff, start_production_iff_start_rule. split.
+  - intros H Hin. assert (X : existsb (String.eqb "start") (rules_heads ds) = true).
+    { apply existsb_exists. exists "start"%string. split; [exact Hin | reflexivity]. }
+    rewrite X in H. discriminate.
+  - intros H. destruct (existsb (String.eqb "start") (rules_heads ds)) eqn:E; [|reflexivity]. exfalso. apply H.
+    apply existsb_exists in E as [A [HA EA]]. apply String.eqb_eq in EA. subst A. exact HA.
+Qed.
+Print Assumptions no_start_rule_is_reported_iff_none_is_written.
+
+(* "a non-terminal with no production": whatever is reported is a non-terminal that a written rule mentions and that has
+   no written rule (a problem that is present) - every declaration list, no premise ... *)
+Theorem reported_missing_rule_is_missing :
+  forall ds A, In (NoProductionFor A) (spec_diags ds) -> In A (mentioned_nts ds) /\ ~ In A (rules_heads ds).
+Proof.
+  intros ds A H. unfold spec_diags, translate_spec in H. apply no_production_reported_iff in H as (_ & Hin & Hno).
+  exact (unproductive_is_mentioned_without_a_rule terminal_names predefs_s ds A Hin Hno).
+Qed.
+Print Assumptions reported_missing_rule_is_missing.
+
+(* ... and every mentioned non-terminal without a written rule is reported, once the terminal table is in order (the
+   implementation returns the table's diagnostics alone when there are any) - for names that do not begin with "gen"
+   (a user rule that carries a synthesised name is known finding D2) *)
+Theorem missing_rule_is_reported :
+  forall ds A, table_diags (translate_spec ds) = [] ->
+    In A (mentioned_nts ds) -> ~ In A (rules_heads ds) -> is_gen A = false ->
+    In (NoProductionFor A) (spec_diags ds).
+Proof.
+  intros ds A Ht Hm Hh Hg. unfold spec_diags. apply no_production_reported_iff.
+  destruct (mentioned_without_a_rule_is_unproductive terminal_names predefs_s ds A Hm Hh Hg) as [Hin Hno].
+  repeat split; assumption.
+Qed.
+Print Assumptions missing_rule_is_reported.
 
 Fixpoint cp (s : string) : list N :=
   match s with EmptyString => [] | String a t => Ascii.N_of_ascii a :: cp t end.
